@@ -293,7 +293,13 @@ func (s *Service) housekeepAttestedMap(_ context.Context,
 	epoch := s.chainTime.SlotToEpoch(duty.Slot())
 	if epoch > 1 {
 		s.attestedMu.Lock()
-		delete(s.attested, epoch-2)
+		// Remove every old epoch, not just epoch-2: an epoch without
+		// attestations would otherwise leave its predecessors behind for ever.
+		for attestedEpoch := range s.attested {
+			if attestedEpoch <= epoch-2 {
+				delete(s.attested, attestedEpoch)
+			}
+		}
 		s.attestedMu.Unlock()
 	}
 }
